@@ -99,6 +99,8 @@ pub fn write_archive(dir: &std::path::Path, paths: &[&str], bands: &[BandState])
     }
 }
 
+pub static OUTCOMES: std::sync::Mutex<std::collections::BTreeSet<String>> = std::sync::Mutex::new(std::collections::BTreeSet::new());
+
 pub fn judge(dir: &std::path::Path, bands: &[BandState], desc: &str, deep: bool) -> (Vec<Violation>, u64) {
     let mut v = Vec::new();
     let snap = Snap::load(dir);
@@ -144,6 +146,11 @@ pub fn judge(dir: &std::path::Path, bands: &[BandState], desc: &str, deep: bool)
                     v.push(Violation::new(sig, format!("{at}: {}", op.describe())));
                     continue;
                 }
+                OUTCOMES.lock().unwrap().insert(format!(
+                    "entries={} from_bands={}",
+                    expect.len(),
+                    expect.iter().map(|e| e.1.as_str()).collect::<std::collections::BTreeSet<_>>().len()
+                ));
                 let got_l: Vec<(String, String)> = got
                     .iter()
                     .map(|e| (e.apath.clone(), e.target.clone().unwrap_or_default()))
@@ -281,6 +288,9 @@ pub fn run(report: &Report, budget: &Budget) {
             break;
         }
         report.set(&format!("sweep_{np}_paths_{nb}_bands_{}_completed", if alphabet[1] == "/b" { "alphabet1" } else { "alphabet2" }), json!({"band_states": states.len(), "archives": n, "with_headless_and_lost_hunk_states": extra}));
+    }
+    for o in OUTCOMES.lock().unwrap().iter() {
+        report.outcome(o.clone());
     }
     report.set("states", json!(archives_done));
     report.set("archives_total", json!(archives_total));
